@@ -22,7 +22,8 @@ class C01(Spec):
     rule = ("random types (depth <= 3 quick / <= 5 thorough) over the constant grid gen/uper_grid.py, weighted towards "
             "OPTIONAL/DEFAULT/extension/CHOICE/list nesting; values inside the root and, for extensible constraints, outside it; "
             "histories of 1-5 (type, value) pairs written into one writer and read back from one reader; plus size sweeps "
-            "{127,128,16383,16384,16385,32768,65535,65536,65537,131072} for strings, octet/bit strings and lists. "
+            "{127,128,16383,16384,16385,32768,65535,65536,65537,131072} for strings, octet/bit strings and lists; SIZE upper bounds at and "
+            "around 65536 combined with lower bounds 0/1/2 on short values, alone and twice in one writer. "
             "non-trivial = encode succeeded with at least 1 bit; distinct = distinct case line")
     assumptions_text = ["descriptor constants are consistent with the field list (as the compiler derives them)",
                         "String/Vec allocation, from_utf8 and trait dispatch of descriptor/*.rs modelled, confronted only through the tie"]
@@ -70,6 +71,29 @@ class C01(Spec):
                     # followed by a second value to check exact consumption
                     ints = [2] + U.enc_ty(t) + U.enc_val(v) + U.enc_ty(("int", 0, (True, 0, True, 255, False))) + U.enc_val(("int", 0xA5))
                     L.append(U.line(1201, ints))
+        # the 64K line of the length determinant: upper bounds at and around 65536 combined with a lower bound, short values
+        for key in [(0, 65536, False), (1, 65536, False), (2, 65536, False), (0, 65537, False), (1, 65537, False),
+                    (2, 65535, False), (1, 65535, False), (1, 65536, True), (2, 65536, True)]:
+            for ln in sorted({max(2 * key[0], 1), 2 * key[0] + 1, 5, 11, 300}):
+                if not U.in_size(ln, key):
+                    continue
+                for t in [("oct", key), ("bits", key), ("str", U.CS_IA5, key), ("list", ("bool",), key)]:
+                    if t[0] == "oct":
+                        v = ("oct", [(7 * i + 3) % 256 for i in range(ln)])
+                    elif t[0] == "bits":
+                        nb = (ln + 7) // 8
+                        bs = [(11 * i + 5) % 256 for i in range(nb)]
+                        if ln % 8:
+                            bs[-1] &= (0xFF << (8 - ln % 8)) & 0xFF
+                        v = ("bits", bs, ln)
+                    elif t[0] == "str":
+                        v = ("str", [97 + (i % 26) for i in range(ln)])
+                    else:
+                        v = ("list", [("bool", i % 3 == 0) for i in range(ln)])
+                    # alone, and twice in one writer followed by a sentinel (the second value must start where the first ends)
+                    L.append(U.line(1201, [1] + U.enc_ty(t) + U.enc_val(v)))
+                    L.append(U.line(1201, [3] + (U.enc_ty(t) + U.enc_val(v)) * 2 +
+                                    U.enc_ty(("int", 0, (True, 0, True, 255, False))) + U.enc_val(("int", 0xA5))))
         return L
 
     def canon(self, out):
